@@ -177,8 +177,28 @@ func runModule(t *testing.T, mk func() *adapter, n hx.N) {
 								}
 							}
 							f := fields[rapid.IntRange(0, len(fields)-1).Draw(t, "field")]
-							rv.Field(f).Set(dv.Field(f))
-							c.Op("edit: field %s of rule %d of an earlier list := %v", rv.Type().Field(f).Name, j, dv.Field(f).Interface())
+							if fv := rv.Field(f); fv.Kind() == reflect.Map && fv.Len() > 0 && rapid.Bool().Draw(t, "moveItem") {
+								// a table-valued field: one entry moves to another key, value and table size unchanged
+								keys := fv.MapKeys()
+								sort.Slice(keys, func(a, b int) bool { return fmt.Sprint(keys[a].Interface()) < fmt.Sprint(keys[b].Interface()) })
+								k := keys[rapid.IntRange(0, len(keys)-1).Draw(t, "item")]
+								v := fv.MapIndex(k)
+								nk := rapid.SampledFrom([]interface{}{0, 1, 2, "x"}).Draw(t, "newKey")
+								if !fv.MapIndex(reflect.ValueOf(&nk).Elem()).IsValid() {
+									nm := reflect.MakeMap(fv.Type())
+									for _, kk := range keys {
+										if kk.Interface() != k.Interface() {
+											nm.SetMapIndex(kk, fv.MapIndex(kk))
+										}
+									}
+									nm.SetMapIndex(reflect.ValueOf(&nk).Elem(), v)
+									fv.Set(nm)
+									c.Op("edit: item %v of field %s of rule %d of an earlier list moves to key %v", k.Interface(), rv.Type().Field(f).Name, j, nk)
+								}
+							} else {
+								rv.Field(f).Set(dv.Field(f))
+								c.Op("edit: field %s of rule %d of an earlier list := %v", rv.Type().Field(f).Name, j, dv.Field(f).Interface())
+							}
 							sawEdit = true
 						}
 						h2 := past{h.res, l}
